@@ -45,12 +45,6 @@ func (c *BindingManager) AddBinding(remoteDevice api.DeviceRemoteInterface, data
 		return err
 	}
 
-	// a local feature can only have one remote binding
-	bindings := c.BindingsOnFeature(*serverFeature.Address())
-	if len(bindings) > 0 {
-		return errors.New("the server feature already has a binding")
-	}
-
 	clientFeature := remoteDevice.FeatureByAddress(data.ClientAddress)
 	if clientFeature == nil {
 		return fmt.Errorf("client feature '%s' in remote device '%s' not found", data.ClientAddress, *remoteDevice.Address())
@@ -67,6 +61,13 @@ func (c *BindingManager) AddBinding(remoteDevice api.DeviceRemoteInterface, data
 
 	c.mux.Lock()
 	defer c.mux.Unlock()
+
+	// a local feature can only have one remote binding
+	for _, item := range c.bindingEntries {
+		if reflect.DeepEqual(*item.ServerFeature.Address(), *serverFeature.Address()) {
+			return errors.New("the server feature already has a binding")
+		}
+	}
 
 	c.bindingEntries = append(c.bindingEntries, bindingEntry)
 
